@@ -71,11 +71,19 @@ impl DelegateToDefaultImpl for Rc<Unimock> {
     type Delegator = Rc<DefaultImplDelegator>;
 
     fn to_delegator(self) -> Self::Delegator {
-        Rc::new(DefaultImplDelegator::__from_unimock((*self).clone()))
+        // A sole owner hands over the instance itself (like a by-value receiver does),
+        // otherwise the original would be torn down here while its clone is alive.
+        match Rc::try_unwrap(self) {
+            Ok(unimock) => Rc::new(DefaultImplDelegator::__from_unimock(unimock)),
+            Err(shared) => Rc::new(DefaultImplDelegator::__from_unimock((*shared).clone())),
+        }
     }
 
     fn from_delegator(delegator: Self::Delegator) -> Self {
-        Rc::new(delegator.unimock.clone())
+        match Rc::try_unwrap(delegator) {
+            Ok(delegator) => Rc::new(delegator.unimock),
+            Err(shared) => Rc::new(shared.unimock.clone()),
+        }
     }
 }
 
@@ -83,11 +91,19 @@ impl DelegateToDefaultImpl for Arc<Unimock> {
     type Delegator = Arc<DefaultImplDelegator>;
 
     fn to_delegator(self) -> Self::Delegator {
-        Arc::new(DefaultImplDelegator::__from_unimock((*self).clone()))
+        // A sole owner hands over the instance itself (like a by-value receiver does),
+        // otherwise the original would be torn down here while its clone is alive.
+        match Arc::try_unwrap(self) {
+            Ok(unimock) => Arc::new(DefaultImplDelegator::__from_unimock(unimock)),
+            Err(shared) => Arc::new(DefaultImplDelegator::__from_unimock((*shared).clone())),
+        }
     }
 
     fn from_delegator(delegator: Self::Delegator) -> Self {
-        Arc::new(delegator.unimock.clone())
+        match Arc::try_unwrap(delegator) {
+            Ok(delegator) => Arc::new(delegator.unimock),
+            Err(shared) => Arc::new(shared.unimock.clone()),
+        }
     }
 }
 
